@@ -577,6 +577,36 @@ def search_shift_failure(ctx, impl, why, regenerated_ok=True):
 
 # --------------------------------------------------------------------------- run
 
+def gen_snapshot(paths):
+    """text of the generated files right after this run's translators wrote them"""
+    out = {}
+    for p in paths:
+        try:
+            out[p] = open(p).read()
+        except OSError:
+            out[p] = None
+    return out
+
+
+def gen_overwritten(ctx, snap):
+    """coq/Gen/*.v is one shared location: another run (a check on another tree, tools/setup.sh) may rewrite a
+    generated file between this run's translation and its proof build, and the theorems are then checked against
+    somebody else's source.  Detected here and reported (no input blamed): the run is not conclusive."""
+    changed = [os.path.relpath(p, pv.ROOT) for p, old in snap.items() if old is not None and _read(p) != old]
+    if changed:
+        ctx.violation("gen-overwritten", {"kind": "environment", "files": changed}, False,
+                      "%s changed while this check was building its proofs (a concurrent run regenerated it from another tree): "
+                      "the obligations were not checked against the source of THIS run; run the check again" % ", ".join(changed))
+    return bool(changed)
+
+
+def _read(p):
+    try:
+        return open(p).read()
+    except OSError:
+        return None
+
+
 def run(ctx):
     ctx.level = "proof"
     # (T) regenerate coq/Gen/ShiftsGen.v from the current tree
@@ -588,7 +618,9 @@ def run(ctx):
         tr_err = "%s: %s" % (type(e).__name__, e)
     ctx.cov["translator"] = {"file": "translate/gen_shifts.py", "source": os.path.join(pv.REPO, "primitiv/core/numeric_utils.h"),
                              "output": "coq/Gen/ShiftsGen.v", "status": "ok" if not tr_err else tr_err}
+    snap = gen_snapshot([os.path.join(pv.COQ, "Gen", "ShiftsGen.v")])
     res = ctx.prove(extra_targets=("Gen/ShiftsGen.vo", "Extract/ExtractPool.vo"))
+    gen_overwritten(ctx, snap)
     model = pv.build_ocaml("pool")
     impl = pv.build_harness("plain", "pool_drv")
     r = ctx.rng
